@@ -12,6 +12,8 @@
   finding C02-boottime-zero, fixed in /repo 29257b1: no tolerance, a disagreement there is a violation).
 """
 import ast
+import errno
+import os
 
 from harness.common import extract
 from harness.common.shrink import ddmin
@@ -125,10 +127,77 @@ GLOBAL_CALLS = {
 GLOBAL_NAMES = sorted(GLOBAL_CALLS)
 
 
+# transient errors of open()/read() on /proc/<pid>/stat that say nothing about the process (seeded round 5): fd
+# exhaustion in the caller, kernel memory pressure, an I/O error — plus two that CPython maps to OSError subclasses
+FAULT_ERRNOS = ("EMFILE", "ENFILE", "ENOMEM", "EIO", "EAGAIN", "ETIMEDOUT")
+OSERROR_CLASSES = ("OSError", "InterruptedError", "BlockingIOError", "TimeoutError")
+
+
+class _FailingRead:
+    """an opened /proc/<pid>/stat whose read() fails (the error comes from the kernel's seq_file read, not from open)"""
+
+    def __init__(self, f, err):
+        self._f, self._err = f, err
+
+    def __enter__(self):
+        return self
+
+    def __exit__(self, *a):
+        self._f.close()
+        return False
+
+    def close(self):
+        self._f.close()
+
+    def _fail(self, *a, **kw):
+        raise OSError(self._err, os.strerror(self._err))
+
+    read = readline = readlines = __iter__ = __next__ = _fail
+
+
 class Impl2(c01.Impl):
     def __init__(self, ctx):
         super().__init__(ctx)
         self.Sub = type("SubProcess", (self.ps.Process,), {"extra_attribute": 1})
+        self.faulty = {}     # pid -> (errno name, "open" | "read"): reads of /proc/<pid>/stat fail transiently
+
+    def reset(self, btime):
+        super().reset(btime)
+        self.faulty = {}
+
+    def _open(self, fname, *a, **kw):
+        """on top of c01.Impl._open (unreadable stat files): the content of /proc/<pid>/stat of a FAULTY pid cannot be
+        obtained right now — open() fails with the errno, or (at == "read", file present) open() succeeds and read() fails"""
+        m = self._stat_re.match(os.fsdecode(fname)) if isinstance(fname, (str, bytes)) else None
+        if m and int(m.group(1)) in self.faulty:
+            name, at = self.faulty[int(m.group(1))]
+            e = getattr(errno, name)
+            if at == "read" and os.path.exists(fname):
+                return _FailingRead(open(fname, *a, **kw), e)
+            raise OSError(e, os.strerror(e), os.fsdecode(fname))
+        return super()._open(fname, *a, **kw)
+
+    def do(self, op):
+        if op["op"] == "fault":
+            if op["on"]:
+                self.faulty[op["pid"]] = (op.get("e", "EMFILE"), op.get("at", "open"))
+            else:
+                self.faulty.pop(op["pid"], None)
+            self.last_aux = None
+            return {"kind": "unit"}, []
+        out, effs = super().do(op)
+        if op["op"] == "process_iter" and out.get("kind") == "exc":
+            # a sweep that was cut short handed nothing to its caller, but the objects it had built are cached and
+            # will be yielded by a later sweep: they are objects of the history from now on (model: appended to `objs`
+            # by the loop before it stopped) — registered in PID order, the order they were built in
+            pm = getattr(self.ps, "_pmap", None)
+            if isinstance(pm, dict):
+                for pid in sorted(pm):
+                    self._handle(pm[pid])
+        if out.get("kind") == "exc" and out.get("exc") in OSERROR_CLASSES:
+            # the transient error itself reached the caller (whatever subclass CPython made of the errno)
+            out = {"kind": "exc", "exc": "OSError", "cls": out["exc"]}
+        return out, effs
 
     def _call(self, op):
         k = op["op"]
@@ -210,8 +279,21 @@ def hash_problem(hist, result):
     return None
 
 
+def withheld_answers(result):
+    """while reads of the object's PID fail (spec: "may_raise") `is_running()` may leave with the OS error instead of
+    answering — the clause then only says that an answer which IS given is the right one.  Such a row keeps its model
+    comparison (the model says exactly when the error comes) and loses its spec-level `bool`."""
+    rows = []
+    for (o, im, ie, mo, me, sp, aux) in result["rows"]:
+        if sp.get("may_raise") and im.get("kind") == "exc" and im.get("exc") == "OSError" and not ie:
+            sp = {k: v for k, v in sp.items() if k != "bool"}
+        rows.append((o, im, ie, mo, me, sp, aux))
+    return dict(result, rows=rows)
+
+
 def problem(hist, result):
     prop = "C02" if judged_by_spec(hist) else "none"
+    result = withheld_answers(result)
     pr = c01.first_problem(result, prop)
     if pr and pr[0] == "spec":
         return pr
